@@ -485,3 +485,25 @@ root_check!(c19_root_1leaf_200_9, c19_root_2leaf_200_9, 200, 9);
 //@ {"p":"C19","tier":"thorough","name":"c19_root_1leaf_48_3","clause":"same 1-leaf root test for (48,3): 12-bit segments in 2 bytes","bounds":"all indices and rows","assume":"stub: generate_hash arbitrary","covers":2,"t":1800,"stub":true,"unwindset":{"verify::distinct_indices.*":3,"minimal::expand_array.0":5,"minimal::expand_array.1":27,"fn:equihash::verify::tree_validator":3}}
 //@ {"p":"C19","tier":"experimental","name":"c19_root_2leaf_48_3","clause":"same 2-leaf test for (48,3)","bounds":"all index pairs in one block, all rows","assume":"stub: generate_hash arbitrary consistent","covers":3,"t":1800,"stub":true,"unwindset":{"verify::distinct_indices.*":3,"minimal::expand_array.0":5,"minimal::expand_array.1":27,"fn:equihash::verify::tree_validator":3}}
 root_check!(c19_root_1leaf_48_3, c19_root_2leaf_48_3, 48, 3);
+
+// Near-miss lengths with ARBITRARY contents: the decoder must refuse a solution that is one byte
+// too long or too short even though its bits would still decode to the right number of indices.
+macro_rules! near_length {
+    ($name:ident, $n:expr, $k:expr, $len:expr) => {
+        #[kani::proof]
+        #[kani::unwind(40)]
+        fn $name() {
+            let buf: [u8; $len] = kani::any();
+            let r = hk::decode_indices($n, $k, &buf);
+            assert!(matches!(r, Some(None)));
+            core::mem::forget(r);
+            assert!(hk::is_valid_solution_kind($n, $k, &[], &[], &buf) == 5);
+        }
+    };
+}
+//@ {"p":"C19","tier":"quick","clause":"(32,3) expects 9 bytes: every 10-byte string is rejected with InvalidParams (never decoded, whatever the surplus byte holds)","bounds":"all 10-byte strings","covers":0,"t":600}
+near_length!(c19_near_length_32_3_plus1, 32, 3, 10);
+//@ {"p":"C19","tier":"quick","clause":"(32,3): every 8-byte string is rejected","bounds":"all 8-byte strings","covers":0,"t":600}
+near_length!(c19_near_length_32_3_minus1, 32, 3, 8);
+//@ {"p":"C19","tier":"thorough","clause":"(96,3) expects 25 bytes: every 26-byte string is rejected","bounds":"all 26-byte strings","covers":0,"t":900}
+near_length!(c19_near_length_96_3_plus1, 96, 3, 26);
